@@ -1571,6 +1571,7 @@ def check_text_driver(ctx, pstate):
         return prog.functions[frame].module if frame in prog.functions \
             else pr.module
     bad = None
+    extra = None
     n = 0
     for k in ('str', "'@'", "'!'"):
         av = dom[k]
@@ -1596,6 +1597,40 @@ def check_text_driver(ctx, pstate):
                 continue
             if not (tokenized and from_state) and bad is None:
                 bad = (p, U(e)[:80], k)
+            # what is shifted is what the tokenizer yielded, token by token:
+            # a token put in front of, between or after them changes the
+            # language the reducer table accepts
+            for ev in p.events:
+                mc = method_call(ev.node) if ev.kind == 'call' else None
+                if not (mc and mc[1] == 'shift' and 'shift' in
+                        pstate.methods):
+                    continue
+                recv = en.expand(mc[0])
+                if not (isinstance(recv, ast.Call) and prog.resolve(
+                        modof(ev.frame), recv.func) == pstate.qual):
+                    continue
+                elems = set()
+                for a in ev.node.args:
+                    for x in ast.walk(en.expand(a)):
+                        if isinstance(x, ast.Name) and isinstance(
+                                en.defs.get(x.id), tuple) and en.defs[
+                                    x.id][0] == 'elem':
+                            it = en.expand(en.defs[x.id][1])
+                            if isinstance(it, ast.Call) and prog.callee_of(
+                                    prog.functions.get(ev.frame, pr),
+                                    it) is tok:
+                                elems.add(x.id)
+                if len(ev.node.args) == 1 and isinstance(
+                        ev.node.args[0], ast.Starred) and len(elems) == 1 \
+                        and isinstance(en.expand(ev.node.args[0].value),
+                                       ast.Name):
+                    continue            # state.shift(*pair)
+                if len(ev.node.args) != 2 or len(elems) != 1 or not all(
+                        any(isinstance(x, ast.Name) and x.id in elems
+                            for x in ast.walk(en.expand(a)))
+                        for a in ev.node.args):
+                    if extra is None:
+                        extra = (ev, U(ev.node)[:60])
     ctx.ob('C01.TEXT-DRIVER', bad is None and n > 0,
            '%s:%d' % (ctx.where(pr.module, pr.node).split(':')[0],
                       bad[0].outcome.line) if bad
@@ -1608,6 +1643,20 @@ def check_text_driver(ctx, pstate):
            'whitespace and parentheses are not interpreted on that path '
            '(path: %s)' % (dom[bad[2]].label, bad[1],
                            bad[0].cond_text()[-200:]))
+    _report_extra_shift(ctx, pr, extra)
+
+
+def _report_extra_shift(ctx, pr, extra):
+    ctx.ob('C01.TEXT-DRIVER', extra is None, '%s:%d' % (
+        ctx.where(pr.module, pr.node).split(':')[0], extra[0].line)
+        if extra else ctx.where(pr.module, pr.node), pr.qual,
+        'tokens shifted' if extra is None else 'shift ' + extra[1],
+        'exactly the tokens the tokenizer yields are shifted, in order'
+        if extra is None else
+        'the driver shifts a token (%s) that is not the one the tokenizer '
+        'yielded: the reducer table then accepts token sequences other than '
+        'those of the rule text (e.g. a stray parenthesis pairing with an '
+        'implicit one)' % extra[1])
 
 
 def _needs_separator(en, path, subject):
